@@ -231,13 +231,16 @@ theorem nextBlock_spec (i : Nat) (block : UInt8) (r : Option Bytes) (rs : List (
     have hb' : (i + 1) % 8 ≠ 0 := by simpa using hb
     exact ⟨block, rfl, fun k h1 h2 => hA hb' k h1 h2⟩
 
-theorem fields_roundtrip (H : FieldCodecs good enc rd z)
+/-- Reading the fields `fs` back from a body that was written for `fs` **followed by any further fields** (`ss` are the
+per-field results of the appended fields): the older reader recovers its own fields whatever a newer writer appended —
+unknown presence bits in the last mask byte, further mask bytes and field bytes are never looked at. -/
+theorem fields_roundtrip_ext (H : FieldCodecs good enc rd z)
     (HT : ∀ ty r, plainTrue ty = true → enc ty true (z ty) = .ok r → r = none)
-    (Hpt : ∀ ty, plainTrue ty = true → isTrue ty = true) :
+    (Hpt : ∀ ty, plainTrue ty = true → isTrue ty = true) (ss : List (Option Bytes)) :
     ∀ (fs : List Field) (vs : List (Option Val)) (rs : List (Option Bytes)),
       GoodFields good z plainTrue isTrue fs vs → encFieldsWith enc fs vs = .ok rs →
-      ∀ (i : Nat) (block : UInt8), BlockAgree i block (bodyLoop i rs).1 →
-        readFields2With rd skip z isTrue i block fs (bodyLoop i rs).2 = .ok vs := by
+      ∀ (i : Nat) (block : UInt8), BlockAgree i block (bodyLoop i (rs ++ ss)).1 →
+        readFields2With rd skip z isTrue i block fs (bodyLoop i (rs ++ ss)).2 = .ok vs := by
   intro fs
   induction fs with
   | nil =>
@@ -261,12 +264,13 @@ theorem fields_roundtrip (H : FieldCodecs good enc rd z)
         | ok rs' =>
           rw [hfs] at he
           cases he
-          obtain ⟨block1, hnb, hbits⟩ := nextBlock_spec i block r rs' hA
-          obtain ⟨q, hq⟩ := bodyLoop_next_div rs' i
+          rw [List.cons_append] at hA ⊢
+          obtain ⟨block1, hnb, hbits⟩ := nextBlock_spec i block r (rs' ++ ss) hA
+          obtain ⟨q, hq⟩ := bodyLoop_next_div (rs' ++ ss) i
           have hbit : testBit block1.toNat ((i + 1) % 8) = r.isSome := by
             rw [hbits _ (Nat.le_refl _) (Nat.mod_lt _ (by decide)), hq, fieldBit_eq]
             exact testBit_low_add _ _ _
-          have hA' : BlockAgree (i + 1) block1 (bodyLoop (i + 1) rs').1 := by
+          have hA' : BlockAgree (i + 1) block1 (bodyLoop (i + 1) (rs' ++ ss)).1 := by
             intro hne k h1 h2
             have hj : (i + 1 + 1) % 8 = (i + 1) % 8 + 1 := by omega
             obtain ⟨e, he⟩ : ∃ e, k = (i + 1) % 8 + 1 + e := ⟨k - ((i + 1) % 8 + 1), by omega⟩
@@ -278,6 +282,18 @@ theorem fields_roundtrip (H : FieldCodecs good enc rd z)
           rw [hbit, field_roundtrip H HT Hpt f v r hs hf]
           simp only []
           rw [ih vs rs' hg' hfs (i + 1) block1 hA']
+
+theorem fields_roundtrip (H : FieldCodecs good enc rd z)
+    (HT : ∀ ty r, plainTrue ty = true → enc ty true (z ty) = .ok r → r = none)
+    (Hpt : ∀ ty, plainTrue ty = true → isTrue ty = true) :
+    ∀ (fs : List Field) (vs : List (Option Val)) (rs : List (Option Bytes)),
+      GoodFields good z plainTrue isTrue fs vs → encFieldsWith enc fs vs = .ok rs →
+      ∀ (i : Nat) (block : UInt8), BlockAgree i block (bodyLoop i rs).1 →
+        readFields2With rd skip z isTrue i block fs (bodyLoop i rs).2 = .ok vs := by
+  intro fs vs rs hg he i block hA
+  have := fields_roundtrip_ext (skip := skip) H HT Hpt [] fs vs rs hg he i block (by rw [List.append_nil]; exact hA)
+  rw [List.append_nil] at this
+  exact this
 
 /-- a field the writer left out holds the value `Reset` gives it -/
 theorem field_absent (H : FieldCodecs good enc rd z)
